@@ -14,7 +14,7 @@ var runCounter int
 func newVC(prog *Program, fi *FuncInfo) *VC {
 	runCounter++
 	return &VC{prog: prog, fn: fi, heap0: map[string]*Term{}, heapSorts: map[string]*Sort{}, runTag: fmt.Sprintf("r%d", runCounter),
-		boxed: map[types.Object]bool{}, siteOrd: map[ast.Node]string{}, siteOrd2: map[ast.Node]string{}, loopPath: map[ast.Stmt]string{}, closures: map[types.Object]*ast.FuncLit{}, analyzed: map[ast.Node]bool{}, ghostTypes: map[string]types.Type{}, usedSites: map[string]bool{}, gaddrSeen: map[string]bool{}, heapGoTypes: map[string]types.Type{}, mapValArr: map[string]bool{}, epochAlloc: map[string]*Term{}}
+		boxed: map[types.Object]bool{}, siteOrd: map[ast.Node]string{}, siteOrd2: map[ast.Node]string{}, loopPath: map[ast.Stmt]string{}, closures: map[types.Object]*ast.FuncLit{}, analyzed: map[ast.Node]bool{}, ghostTypes: map[string]types.Type{}, usedSites: map[string]bool{}, paramVals: map[*types.Var]*Term{}, gaddrSeen: map[string]bool{}, heapGoTypes: map[string]types.Type{}, mapValArr: map[string]bool{}, epochAlloc: map[string]*Term{}}
 }
 
 // analyzeBody computes boxed variables and site numbering for a function body.
@@ -106,6 +106,7 @@ func (vc *VC) verify() (obls []*Obligation, err error) {
 		}
 		v := vc.loadedDeep(s, o.Type(), Const(smtName(o.Name())+"0."+vc.runTag, sortOf(o.Type())), o.Name())
 		paramVals[o] = v
+		vc.paramVals[o] = v
 		vc.bindParam(s, o, v)
 	}
 	if fi.Decl.Recv != nil {
@@ -194,7 +195,9 @@ func (vc *VC) verify() (obls []*Obligation, err error) {
 		}
 	}
 	for i, e := range spec.Ensures {
+		vc.curClause = e
 		vc.obligeKeep(s, "ensures", fmt.Sprintf("%d", i+1), "postcondition: "+e.Src, fi.Decl.Pos(), post.evalBool(e))
+		vc.curClause = nil
 	}
 	return vc.obls, nil
 }
@@ -205,4 +208,3 @@ func (vc *VC) obligeKeep(s *State, kind, site, desc string, pos token.Pos, goal 
 	vc.oblige(s, kind, site, desc, pos, goal)
 	s.pc = pc
 }
-
